@@ -12,6 +12,7 @@ def to_replay(fl):
 
 def run(ctx):
     findings = load_findings('C04')
+    translate(ctx, ['key', 'consts'])
     lean_props(ctx)
     if not cargo_harness(ctx, ['h_c04']): return
     nf, nm = (20000, 1500) if ctx.quick() else (400000, 30000)
